@@ -406,7 +406,11 @@ def obs_C06(g, out):
         x0, x1, y0, y1 = t["rects"][r["id"]]
         fxhi[x0:x1, y0:y1] = a[1:, :]
     out["ddx"] = {"f_centre": Q(g.var("dphidy"), qd), "f_xlow": Q(g.var("dphidy_xlow"), qd), "f_xhi": Q(fxhi, qd),
-                  "st_times_dx": Q(g.var("ShiftTorsion") * g.var("dx"), qd)}
+                  "st_times_dx": Q(g.var("ShiftTorsion") * g.var("dx"), qd),
+                  # at the x-faces: ShiftTorsion_xlow * dx_xlow is the difference of dphidy between the two adjacent cell centres
+                  # (twice the centre-minus-face difference at the inner boundary of the grid)
+                  "stx_times_dx": Q(g.var("ShiftTorsion_xlow") * g.var("dx_xlow"), qd),
+                  "dxl": Q(g.var("dx_xlow"), 1e-9 * g.psi_scale()), "dxc": Q(g.var("dx"), 1e-9 * g.psi_scale())}
     # chi: NaN mask and value relative to zShift/ShiftAngle
     out["chi_nan"] = {loc: np.isnan(g.loc("chi", loc)).astype(int).tolist() for loc in ("centre", "xlow", "ylow")}
     if g.extra["tables"]["order"] == ["circular"] and has_bt:
